@@ -78,6 +78,12 @@ def specs(ctx, n):
         name = names[i % len(names)]
         sp = dunit.general_spec(rng, name, max_calls=3, metrics=rng.choice([0, 1, 2, 3]), nonfinite=rng.choice([0, 0, 0.1]),
                                 sizes=(2, 3, 5), max_points=60, n_max=14)
+        # the objective returns one and the same metrics dict object on every call (memory off: with memory on the stored result IS that
+        # object, which the objective itself keeps changing -- "the originally returned result" is then ambiguous, see DESIGN section 2)
+        if rng.random() < 0.3:
+            sp["alias_metrics"] = True
+            for c_ in sp["calls"]:
+                c_["memory"] = False
         if name in ("GeneticAlgorithmOptimizer", "DifferentialEvolutionOptimizer"):
             sp["cfg"] = {k: v for k, v in (sp["cfg"] or {}).items() if k != "population"}
         if rng.random() < 0.35:        # warm-started memory (frames with scores that differ from the objective's)
